@@ -330,6 +330,10 @@ def run_family(ctx: Ctx, prop: str, observer, rule: str) -> int:
                          bad, None)
     for s in ok[:: max(1, len(ok) // 3)][:3]:
         rep.sample({"content": s["c"], "first_point": s["pts"][1]})
+    # code -> spec: shipped example models and repository test models judged by the specification
+    from . import model_oracle
+
+    model_oracle.run(ctx, rep, prop)
     return rep.finish()
 
 
